@@ -63,6 +63,34 @@ func drawWorkload(t *core.Tape, kind int) wlInput {
 	return in
 }
 
+// deepInput builds a deeply nested input for the workload's language.
+func deepInput(lang, depth int) []byte {
+	var open, mid, cl string
+	switch lang {
+	case 0:
+		open, mid, cl = "@media x{", "a{b:c}", "}"
+	case 1:
+		open, mid, cl = "<div a=b>", "text", "</div>"
+	case 2:
+		open, mid, cl = "<a b=\"c\">", "t", "</a>"
+	case 3:
+		open, mid, cl = "[", "1", "]"
+	case 4:
+		open, mid, cl = "[", "x", "]"
+	default:
+		open, mid, cl = "(", "1", ")"
+	}
+	b := make([]byte, 0, depth*(len(open)+len(cl))+len(mid))
+	for i := 0; i < depth; i++ {
+		b = append(b, open...)
+	}
+	b = append(b, mid...)
+	for i := 0; i < depth; i++ {
+		b = append(b, cl...)
+	}
+	return b
+}
+
 func firstDiff(a, b []byte) string {
 	la, lb := bytes.Split(a, []byte("\n")), bytes.Split(b, []byte("\n"))
 	for i := 0; i < len(la) || i < len(lb); i++ {
@@ -123,6 +151,23 @@ func RunC20(ctx *core.Ctx) *core.Violation {
 	}
 	if focus {
 		ctx.Count("probe_focused_runs")
+		if t.Chance(1, 3) {
+			// every task on the same input (own copies): with probability 1/4 a deeply nested one
+			if t.Chance(1, 10) {
+				// stress configuration: deepest legal nesting, no pruning in visitors, maximum number of tasks
+				ins[0].data = deepInput(wlLang[ins[0].kind], t.Pick(40, 300, 900, 950))
+				ins[0].opt &^= 0x1c
+				for len(ins) < 6 {
+					ins = append(ins, wlInput{})
+				}
+				n = len(ins)
+				ctx.Count("probe_deep_input_runs")
+			}
+			for i := 1; i < n; i++ {
+				ins[i] = wlInput{kind: ins[0].kind, opt: ins[0].opt, data: append([]byte{}, ins[0].data...)}
+			}
+			ctx.Count("probe_all_identical_runs")
+		}
 	}
 	if t.Chance(1, 2) {
 		// two tasks on byte-identical input (own copies): what a content-keyed cache would need to go wrong
